@@ -79,6 +79,10 @@ def handleCtf (op : String) (args : List Sexp) : Option Sexp := do
   | "factorize", [g, e] =>
       pure (exceptToSexp (fun r => .list [Codec.exprToSexp r.1, eventToSexp r.2])
         (factorize (← parseGraph g) (← eventOf? e)))
+  | "factorize_classes", [g, e] =>
+      let ev ← eventOf? e
+      pure (exceptToSexp (fun r => .list [boolToSexp r.1, boolToSexp r.2.1, boolToSexp r.2.2, boolToSexp (readableQuery ev)])
+        (factorizeClasses (← parseGraph g) ev))
   | "simplify_factorize", [g, e] =>
       let gr ← parseGraph g
       let ev ← eventOf? e
